@@ -76,7 +76,9 @@ def _objects(case):
         rep = em.DailyReportingData(df.iloc[:60], is_electricity_data=elec)
         # America/Regina has the SAME UTC offset as the baseline's zone on the first reporting days (January) but is another zone
         other_tz = [em.DailyReportingData(df.iloc[:60].tz_convert(z), is_electricity_data=elec) for z in ("Europe/Berlin", "America/Regina")]
-        foreign = em.HourlyReportingData(_hourly_frame(dict(case, n_days=20)), is_electricity_data=True)
+        # foreign data types: an hourly data object, and a BILLING data object (same private base class as the daily ones, same timezone)
+        foreign = [em.HourlyReportingData(_hourly_frame(dict(case, n_days=20)), is_electricity_data=True),
+                   em.BillingReportingData(df.iloc[:90], is_electricity_data=elec), em.BillingBaselineData(df, is_electricity_data=elec)]
         return em.DailyModel, base, rep, other_tz, foreign
     bills = df["observed"].resample("MS").sum(min_count=20)
     if case.get("poor_fit"):
@@ -146,9 +148,10 @@ def replay(case):
                 e, r = _raises(lambda: mm.predict(other, ignore_disqualification=True))
                 if e is None:
                     bad.append(f"{label}: predict on reporting data in another timezone ({other.df.index.tz}) returned instead of raising")
-            e, r = _raises(lambda: mm.predict(foreign, ignore_disqualification=True))
-            if e is None:
-                bad.append(f"{label}: predict on a foreign data type returned instead of raising")
+            for fo in (foreign if isinstance(foreign, list) else [foreign]):
+                e, r = _raises(lambda: mm.predict(fo, ignore_disqualification=True))
+                if e is None:
+                    bad.append(f"{label}: predict on a foreign data type ({type(fo).__name__}) returned instead of raising")
     return {"ok": not bad, "problems": bad}
 
 
